@@ -296,6 +296,15 @@ func checkQueries(sc any, step int, o message.Options, m model) *evid.Failure {
 						return fail("uints-values", "GetUint32s(%d)[%d] = %d want %d", id, i, us[i], decUint(vals[i]))
 					}
 				}
+			} else {
+				// values longer than 4 bytes have no numeric meaning in the model; the single and the
+				// multi-value getter must still answer consistently with each other
+				for i := range vals {
+					single, err := (message.Options{{ID: oid, Value: vals[i]}}).GetUint32(oid)
+					if err == nil && us[i] != single {
+						return fail("uints-inconsistent", "GetUint32s(%d)[%d] = %d but GetUint32 on the same %d-byte value gives %d", id, i, us[i], len(vals[i]), single)
+					}
+				}
 			}
 			for i := len(vals); i < n; i++ {
 				if us[i] != 0xdeadbeef {
